@@ -849,3 +849,59 @@ Example C20_graph_run_state_example :
      (Some 1, Some 1, true)]%nat /\
   map fst (r_G (run t (fun b => b) ws h)) = [0; 2; 3]%nat.
 Proof. exact run_state_example. Qed.
+
+(* ---------------------------------------------------------------------------------------- *)
+From C20 Require Import GraphRunFinEst.
+
+(* THE INDUCTION ALONG THE RUN for finalized / estimate: after EVERY prefix of every history folded
+   through step_op from rinit (phase tags 0/1, both phases tolerant, known-voter votes for blocks of
+   the tree, 0 < total ws < 2^64) r_fin and r_est are the specification's finalized / estimate of
+   ALL the votes of the prefix.  Recorded-only imports (duplicate, third vote) and voters outside
+   the voter set included.  Open: r_compl. *)
+Theorem C20_graph_import_run_fin_est : forall t lbl ws h,
+  0 < total ws -> total ws < 18446744073709551616 ->
+  (forall o, In o h -> (fst o < 2)%nat) ->
+  tolerant ws (votes_of 0 h) = true -> tolerant ws (votes_of 1 h) = true ->
+  (forall o, In o h -> known_voter ws (snd o) = true -> in_tree t (vblock (snd o))) ->
+  forall h1 h2, h = h1 ++ h2 ->
+  let s := run t lbl ws h1 in
+  r_fin s = finalized t ws (votes_of 0 h1) (votes_of 1 h1) /\
+  r_est s = estimate t ws (votes_of 0 h1) (votes_of 1 h1).
+Proof. exact run_fin_est_prefix. Qed.
+Print Assumptions C20_graph_import_run_fin_est.
+
+(* the form over the votes of known voters, for one history satisfying GraphRunGhost.good *)
+Theorem C20_graph_import_run_fin_est_known : forall t lbl ws, 0 < total ws -> total ws < 18446744073709551616 ->
+  forall h, good t ws h ->
+  r_fin (run t lbl ws h) = finalized t ws (known_votes_of ws 0 h) (known_votes_of ws 1 h) /\
+  r_est (run t lbl ws h) = estimate t ws (known_votes_of ws 0 h) (known_votes_of ws 1 h).
+Proof. exact run_fin_est. Qed.
+Print Assumptions C20_graph_import_run_fin_est_known.
+
+(* a recorded-only import does not change the weight of the votes seen *)
+Theorem C20_cur_weight_recorded_only : forall ws S x, voted S (vvoter x) = true ->
+  cur_weight ws (S ++ [x]) = cur_weight ws S.
+Proof. exact cur_weight_app_voted. Qed.
+Print Assumptions C20_cur_weight_recorded_only.
+
+(* non-vacuity: all hypotheses hold on a history with a duplicate prevote, a duplicate precommit, a
+   voter outside the voter set, a precommit equivocation and its third vote; finalized / estimate
+   become Some and agree after every prefix *)
+Example C20_graph_run_fin_est_example :
+  let t := [0; 1; 1]%nat in let ws := [1; 1; 1; 1]%N in
+  let h := [(0, mkVote 0 2 0); (0, mkVote 1 2 0); (0, mkVote 2 2 0); (0, mkVote 3 3 0); (0, mkVote 0 2 0);
+            (1, mkVote 0 2 0); (1, mkVote 1 3 0); (1, mkVote 1 3 0); (0, mkVote 7 3 0); (1, mkVote 2 3 0);
+            (1, mkVote 3 3 0); (1, mkVote 3 2 0); (1, mkVote 3 1 0)]%nat in
+  (forall o, In o h -> (fst o < 2)%nat) /\ (0 < total ws)%N /\ (total ws < 18446744073709551616)%N /\
+  tolerant ws (votes_of 0 h) = true /\ tolerant ws (votes_of 1 h) = true /\
+  (forall o, In o h -> known_voter ws (snd o) = true -> in_tree t (vblock (snd o))) /\
+  map (fun k => let s := run t (fun b => b) ws (firstn k h) in (r_fin s, r_est s)) (seq 0 14) =
+    [(None, None); (None, None); (None, None); (None, Some 2); (None, Some 2); (None, Some 2);
+     (None, Some 2); (None, Some 2); (None, Some 2); (None, Some 2); (Some 1, Some 2); (Some 1, Some 1);
+     (Some 1, Some 1); (Some 1, Some 1)]%nat /\
+  map (fun k => let V := votes_of 0 (firstn k h) in let C := votes_of 1 (firstn k h) in
+                (finalized t ws V C, estimate t ws V C)) (seq 0 14) =
+    [(None, None); (None, None); (None, None); (None, Some 2); (None, Some 2); (None, Some 2);
+     (None, Some 2); (None, Some 2); (None, Some 2); (None, Some 2); (Some 1, Some 2); (Some 1, Some 1);
+     (Some 1, Some 1); (Some 1, Some 1)]%nat.
+Proof. exact run_fin_est_example. Qed.
